@@ -4,7 +4,7 @@ import ast
 
 from sa.callgraph import STRONG_KINDS
 from sa.dataflow import ReachingDefs, depends_on
-from sa.dom import view
+from sa.dom import view, mentions
 from sa.model import AnalysisError, call_name, loc, norm, walk_no_nested
 from sa.null import check_nullable, named_sources
 from sa.stack import check_balance, PUSH
@@ -122,6 +122,22 @@ def run(ctx):
                   roc.qualname, call, loc(roc, call), "the row label pushed in the onset pass does not derive from original_index",
                   desc="onset-pass row label derives from original_index")
     ctx.floor("R7.5", "file-row mappings in the onset pass", n_map, 2)
+
+    # ---- R7.6: only an error disqualifies a row from the full-string and temporal checks
+    ctx.rule("R7.6", "a row is excluded from the full-row and temporal checks only when its cells produced an error (not a warning)")
+    rc = cls.methods.get("_run_checks")
+    if rc is None:
+        raise AnalysisError("anchor SpreadsheetValidator._run_checks vanished")
+    vrc = view(ctx, rc)
+    marks = [(n_, c) for (n_, c) in vrc.calls(lambda c: isinstance(c.func, ast.Attribute) and c.func.attr == "add"
+                                              and "invalid_original_rows" in norm(c.func.value))]
+    for n_, c in marks:
+        g = vrc.guard_for(n_, lambda t: mentions(t, "check_for_any_errors"))
+        ctx.check(g is not None and g[1] is True, "R7.6", rc.qualname, c, loc(rc, c),
+                  "the row is marked as failed (and skipped by the full-row and temporal checks) without an error-severity test "
+                  "of its cell issues: a row whose cells only draw warnings loses its row-level errors and its Onset/Offset markers",
+                  desc="row marked failed only under check_for_any_errors(...)")
+    ctx.floor("R7.6", "sites marking a row as failed", len(marks), 1)
 
     # ---- R7.3
     closure = cg.reachable([validate], STRONG_KINDS)
